@@ -16,6 +16,30 @@ PLAN = {
                           "predicates; argparse/configparser trusted; MetaFile.__init__ route bounded",
             "trusted": ["argparse / configparser deliver the piece-length string unchanged to MetaFile (assumed; exercised natively "
                         "by the bounded harness routes cli/config)"]},
+    "C07": {"functions": [], "harness": True,
+            "level_text": "filter_empty (loop invariant over an arbitrary args dict, any key order), edit_torrent and commands.edit are "
+                          "verified from source: the value handed to pyben.dump equals the loaded value on EVERY key of the top-level and "
+                          "info views except the fields the request names, named fields get the written value, cleared fields vanish; "
+                          "argparse -> Namespace is assumed and exercised by the bounded harness (library and CLI routes, sequences)",
+            "level_note": "pyben load/dump are assumed contracts (bdecode/benc uninterpreted, file order = insertion order); metafiles whose "
+                          "top-level and info key sets collide on the six editable names are outside the precondition; histories follow by "
+                          "induction over single edits (last-write-wins is exercised natively, sequences of length <= 2)",
+            "trusted": ["pyben.load / pyben.dump contracts (DESIGN 5.4)", "argparse: absent option = None, store_true default False"]},
+    "C06": {"functions": [], "harness": True,
+            "level_text": "sort_meta, MetaFile.write and edit_torrent are verified to hand pyben.dump a dictionary whose top-level, info and "
+                          "piece-layers keys are in ascending order with unchanged mappings; nested file-tree order, integer/length "
+                          "minimality and the per-version structure are decided by the bounded harness with a strict decoder",
+            "level_note": "pyben emits dict items in insertion order with minimal integers (assumed, validated natively by strict decoding of "
+                          "every written file in the bounded scope); python str order == UTF-8 byte order",
+            "modulo_bounded": ["file tree key order (_traverse x3)", "per-version structure (assemble x4)"],
+            "trusted": ["pyben.dump writes insertion order (DESIGN 5.4)"]},
+    "C17": {"functions": [], "harness": True,
+            "level_text": "crash invariant 'the metafile path holds the complete old or the complete edited file' is an obligation after every "
+                          "file-system effect of edit_torrent (incl. partial writes) and on every exceptional exit, with a fault possible at "
+                          "every external call; proved for all metafiles and requests",
+            "level_note": "effect table of os / tempfile / shutil / pyben is assumed (DESIGN 5.1); os.replace is atomic; mkstemp returns a "
+                          "path that did not exist; bounded harness injects the same faults into the real code",
+            "trusted": ["os.replace atomicity", "tempfile.mkstemp freshness", "pyben.dump = encode, then write"]},
 }
 
 
